@@ -186,6 +186,8 @@ structure Run where
   mon : MonSt := {}
   step : Nat := 0
   mismatch : Option String := none
+  /-- last value written to each lock word by the implementation -/
+  words : List (Nat × Nat) := []
 
 def mcsParams : Mcs.Params :=
   { C := Gen.mcsConsts, ord := Gen.mcsOrders, publishStore := Gen.mcsPublishIsStore }
@@ -283,7 +285,13 @@ def processQ (r : Run) (line : String) (st : Stats) : Run × Stats :=
       else m) mon0
     let st := { st with quanta := st.quanta + 1, evKinds := bump st.evKinds (s!"{evParts.getD 0 ""}/{evParts.getD 2 ""}"),
                         casFail := st.casFail + (if evParts.getD 0 "" == "cas" && evParts.getD 6 "" == "0" then 1 else 0) }
-    let r := { r with mon := mon, step := r.step + 1 }
+    let loc := evParts.getD 1 ""
+    let words := if r.sc.comp != "thread" && loc.startsWith "L" && evParts.getD 0 "" != "load" && evParts.getD 6 "1" == "1" then
+        match (loc.drop 1).toString.toNat?, parseHexOrNat (evParts.getD 5 "0") with
+        | some lk, some w => (r.words.filter (·.1 != lk)) ++ [(lk, w)]
+        | _, _ => r.words
+      else r.words
+    let r := { r with mon := mon, step := r.step + 1, words := words }
     match r.mismatch with
     | some _ => (r, st)
     | none =>
@@ -349,14 +357,23 @@ partial def loop (h : IO.FS.Stream) (cur : Option Run) (pend : Scen) (st : Stats
       | some (k, .outside w) => s!" proto=outside:{k}:{w.replace " " "_"}"
       | some (k, .fail _) => s!" proto=FAIL:{k}"
       | none => ""
-    let monS := match r.mon.bad, r.mon.th.bad, r.mon.opt.bad with
-      | some m, _, _ => s!"FAIL {m}"
-      | none, some m, _ => s!"FAIL {m}"
-      | none, none, some m => s!"FAIL {m}"
-      | none, none, none => "ok"
+    let bads := [r.mon.bad, r.mon.th.bad, r.mon.opt.bad].filterMap id
+    let monS := if bads.isEmpty then "ok" else "FAIL " ++ " || ".intercalate bads
     let hbS := match r.mon.hb.bad with | some m => s!"FAIL {m}" | none => "ok"
-    let leak := if status == "ok" && monS == "ok" && !r.mon.grants.isEmpty then
-      s!"FAIL guard: {r.mon.grants.length} grant(s) never released at the end" else monS
+    let hasGuard := bads.any fun b => (b.splitOn " || ").any fun m => m.startsWith "guard:"
+    let addMsg (cur : String) (m : String) : String := if cur == "ok" then "FAIL " ++ m else cur ++ " || " ++ m
+    let leak := if status == "ok" && !hasGuard && !r.mon.grants.isEmpty then
+      addMsg monS s!"guard: {r.mon.grants.length} grant(s) never released at the end" else monS
+    -- every guard has been released (API level): no lock word may still show a grant
+    let busy := r.words.filter fun (_, w) =>
+      if r.sc.comp == "mcs" then status == "ok" && w != 0
+      else if r.sc.comp == "opt" then (Gen.opt r.sc.retry).anyLock (BitVec.ofNat 64 w)
+      else (Gen.pess r.sc.retry).anyLock (BitVec.ofNat 64 w)
+    let leak := if !hasGuard && leak == monS && r.sc.comp != "thread" && r.mon.grants.isEmpty && (status == "ok" || status == "stuck") then
+        match busy with
+        | (lk, w) :: _ => addMsg leak s!"guard: every guard has been released, but the word of lock {lk} (0x{String.ofList (Nat.toDigits 16 w)}) still shows a grant: a grant was dropped without being released, or released twice"
+        | [] => leak
+      else leak
     IO.println s!"RES {r.sc.id} end={status}{protoS} steps={r.step} corr={corr} ;; mon={leak} ;; hb={hbS}"
     let st := { st with scen := st.scen + 1,
                         mismatches := st.mismatches + (if corr == "ok" then 0 else 1),
